@@ -4,7 +4,7 @@
    ANOTHER parser on nested untrusted bytes, written with that detour:
 
    Go                                                          model
-   */*/protoserialization.go parametersParser.Parse (30 files)  pp_* (one per type), parse_params (the dispatch
+   */*/protoserialization.go parametersParser.Parse (29 files)  pp_* (one per type), parse_params (the dispatch
      + the NewParameters of each package                         of protoserialization.ParseParameters), params
    hybrid/ecies parseParameters (shared by the key parsers      ecies_params_of: runs the parameters parser the DEM
      and the parameters parser): Clone(AeadDem), prefix := RAW,   template names (whatever type it is), THEN compares the
@@ -38,15 +38,20 @@ Import ListNotations.
 Open Scope list_scope.
 Open Scope N_scope.
 
-(* ---- constants of this file (anchors beside them) ---- *)
+(* ---- constants of this file (anchors beside them).  rsa_min_bits_format is the
+   constant of UntrustedConsts that proofs/ConstsTieC14.v ties to the regenerated
+   source value (the signature packages' NewParameters is shared by key and
+   parameters parsers); the others are HAND-COPIED literals outside that tie
+   (listed in the note of checks/props/c14.py): a source edit to them is seen
+   by the correspondence run only. ---- *)
 Definition url_deriver : string := "type.googleapis.com/google.crypto.tink.PrfBasedDeriverKey".
 Definition u_deriver : bytes := Eval vm_compute in bytes_of_string url_deriver.
-Definition deriver_min_prf_key : N := 32.     (* keyderivation/internal/streamingprf minHKDFStreamingPRFKeySize *)
-Definition rsa_min_bits_format : N := 2048.   (* signature/rsassa{pkcs1,pss}/key.go, jwt/jwtrsassa{pkcs1,pss}/parameters.go NewParameters *)
-Definition pf_unspecified : N := 0.           (* hybrid/ecies UnspecifiedPointFormat (X25519) *)
-Definition slh_sha2 : N := 1.                 (* proto/slh_dsa.proto SlhDsaHashType_SHA2 *)
+Definition deriver_min_prf_key : N := 32.     (* keyderivation/internal/streamingprf minHKDFStreamingPRFKeySize (hand-copied) *)
+Definition rsa_min_bits_format : N := rsa_min_bits_parse.   (* signature/rsassa{pkcs1,pss}/key.go NewParameters (tied); jwt/jwtrsassa{pkcs1,pss}/parameters.go repeat the literal 2048 (hand-copied) *)
+Definition pf_unspecified : N := 0.           (* hybrid/ecies UnspecifiedPointFormat (X25519); a code of this model, not a proto number *)
+Definition slh_sha2 : N := 1.                 (* proto/slh_dsa.proto SlhDsaHashType_SHA2 (hand-copied) *)
 Definition slh_shake : N := 2.
-Definition slh_fast : N := 1.                 (* SlhDsaSignatureType_FAST_SIGNING *)
+Definition slh_fast : N := 1.                 (* SlhDsaSignatureType_FAST_SIGNING (hand-copied) *)
 Definition slh_small : N := 2.
 
 (* ------------------------------------------------------------------ *)
@@ -468,7 +473,10 @@ Definition pp_deriver (pp : template -> outcome params) (t : template) : outcome
 (* protoserialization.ParseParameters: the parser registered for the type URL
    (a private-key URL for the asymmetric types), no parser = error.  fuel
    bounds the nesting (ECIES DEM template, deriver templates); S (length of the
-   value) is always enough (proofs: parse_params_fuel). *)
+   value) is always enough (proofs: parse_params_fuel).  Running out of fuel is
+   represented as Err, not as a fourth outcome: parse_params_fuel (any two fuels
+   above the length of the value give the same answer) is why that Err never
+   decides - the answer of parse_params_full is never the fuel's. *)
 Fixpoint parse_params (fuel : nat) (t : template) : outcome params :=
   match fuel with
   | O => Err
@@ -661,7 +669,9 @@ Definition parse_deriver (rec : keydata -> N -> N -> outcome xkd)
 
 (* protoserialization.ParseKey.  A nested value is a field of a field of the
    value: strictly shorter, so fuel = S (length value) is never what stops the
-   recursion (proofs: parse_key_x_flat). *)
+   recursion (proofs: parse_key_x_flat; out-of-fuel is Err here too, and
+   parse_key_x_flat - every fuel above the length gives parse_key_flat, a
+   function without fuel - is why it never decides). *)
 Fixpoint parse_key_x (fuel : nat) (kd : keydata) (prefix idreq : N) : outcome xkd :=
   match fuel with
   | O => Err
@@ -822,13 +832,3 @@ Definition any_deriver (ks : keyset) : bool :=
                     end) (ks_keys ks).
 
 End XKeys.
-
-(* ---- a site written as in the code (for the table of panic sites) ---- *)
-(* prfbasedkeyderivation Parameters.HasIDRequirement: p.DerivedKeyParameters().HasIDRequirement(),
-   a method call on an interface value - a nil interface panics.  NewParameters
-   refuses nil prfParameters / derivedKeyParameters before the object exists. *)
-Definition iface_has_idreq (o : option params) : outcome bool :=
-  match o with
-  | None => Panic
-  | Some p => Ok (params_has_idreq p)
-  end.
